@@ -79,7 +79,7 @@ def x1_dispatch(ctx):
             return
         ps = au.params(fn)
         fparam = ps[-1] if fname.startswith("write") else ps[0]
-        keyn = au.src(sym.subst(b.resolve(key, at=node), {fparam: ast.Name(id="FILE", ctx=ast.Load())}))
+        keyn = au.src(cc.subst(cc.resolve(b, key, at=node), {fparam: ast.Name(id="FILE", ctx=ast.Load())}))
         entries = {}
         for k, v in zip(d.keys, d.values):
             r = repo.resolve(IO, v.id) if isinstance(v, ast.Name) else None
@@ -117,7 +117,7 @@ def x1_dispatch(ctx):
     if ok:
         ret = [s for s in au.stmts(rfn.body) if isinstance(s, ast.Return) and s.value is not None]
         keep = tuple({rc[0].func.id} | set(au.params(rfn)))
-        ok = bool(ret) and all(au.same(rb.resolve(s.value, at=s, keep=keep), rc[0]) for s in ret)
+        ok = bool(ret) and all(au.same(cc.resolve(rb, s.value, at=s, keep=keep), rc[0]) for s in ret)
     ctx.check(ok, "C04-X1", rsite, "read_by_extension does not return import_fun(filename)",
               "the parsed data of the selected importer must be what load() receives")
     wc = selected_calls(wfn, wnode, wb)
@@ -143,7 +143,7 @@ def x1_load_save(ctx):
     inst = [c for c in au.calls(fn) if au.call_tail(c) == "_instanciate_raw_mesh_data"]
     ok = False
     if inst and inst[0].args:
-        a0 = b.resolve(inst[0].args[0], at=inst[0])
+        a0 = cc.resolve(b, inst[0].args[0], at=inst[0])
         ok = isinstance(a0, ast.Call) and au.call_tail(a0) == "read_by_extension" and \
             [au.src(x) for x in a0.args] == ps[:1]
     ctx.check(ok, "C04-X1", site, "load does not build the mesh from read_by_extension(filename)",
@@ -155,7 +155,7 @@ def x1_load_save(ctx):
     wr = [c for c in au.calls(fn) if au.call_tail(c) == "write_by_extension"]
     ok = False
     if len(wr) == 1 and len(wr[0].args) == 2:
-        a0 = b.resolve(wr[0].args[0], at=wr[0])
+        a0 = cc.resolve(b, wr[0].args[0], at=wr[0])
         ok = isinstance(a0, ast.Call) and au.call_tail(a0) == "RawMeshData" and [au.src(x) for x in a0.args] == ps[:1] \
             and au.src(wr[0].args[1]) == ps[1] and not au.guards(wr[0])
     ctx.check(ok, "C04-X1", site, "save does not call write_by_extension(RawMeshData(mesh), filename) unconditionally",
